@@ -6,7 +6,7 @@ import (
 	"sort"
 )
 
-const c06Rule = "(half of the end-to-end cases over TWO range fields) range fields: expressions > a, < b, between [l,h) and in{..}, each as include or exclude, bounds from {small values, +-2^62 and +-2^62-+1, adjacent/identical/nested/overlapping intervals}, narrow ranges (< 256 wide: expanded to values) and wide ranges (interval index), multi-valued assignments (ints, numeric strings, floats) at every boundary +-1, on the k-groups and compact indexes; through the hook: RangeIdx insert histories of 0..8 ranges (piece list before Compile compared piece by piece with the model, Retrieve probed at every boundary +-1 after Compile); thorough adds every history of <= 3 ranges over bounds {-2..3}. cached builds of conjunctions with two range fields; RangeIdx histories over configured domains [min,max) with ranges ending at, starting at, straddling and outside the domain; Non-trivial = some query returns a non-empty proper subset of the documents (end to end) / the history has at least two overlapping ranges (histories); distinct = distinct input"
+const c06Rule = "(half of the end-to-end cases over TWO range fields) range fields: expressions > a, < b, between [l,h) and in{..}, each as include or exclude, bounds from {small values, +-2^62 and +-2^62-+1, adjacent/identical/nested/overlapping intervals}, narrow ranges (< 256 wide: expanded to values) and wide ranges (interval index), multi-valued assignments (ints, numeric strings, floats) at every boundary +-1, on the k-groups and compact indexes; through the hook: RangeIdx insert histories of 0..8 ranges (piece list before Compile compared piece by piece with the model, Retrieve probed at every boundary +-1 after Compile); thorough adds every history of <= 3 ranges over bounds {-2..3}. cached builds of conjunctions with two range fields; RangeIdx histories over configured domains [min,max) with ranges ending at, starting at, straddling and outside the domain; in / not-in lists of 256..300 entries (contiguous, with a gap, with a repeat, with as many repeats as gaps); Non-trivial = some query returns a non-empty proper subset of the documents (end to end) / the history has at least two overlapping ranges (histories); distinct = distinct input"
 
 type histIn struct {
 	Hist   bool       `json:"hist"`
@@ -173,6 +173,38 @@ func rangeCachedCases(add func(in interface{})) {
 	}
 }
 
+// rangeLongInLists: in / not-in lists of 256 and more entries on a range field -- contiguous, with one value missing,
+// with one value repeated, with as many repeats as gaps (as long as its span, yet not a run)
+func rangeLongInLists(add func(in interface{})) {
+	list := func(from, n int64, skip, dup int64) TV {
+		var l []TV
+		for v := from; v < from+n; v++ {
+			if v == skip {
+				continue
+			}
+			l = append(l, tvInt("int64", v))
+			if v == dup {
+				l = append(l, tvInt("int64", v))
+			}
+		}
+		return tvSlice("[]int64", l...)
+	}
+	for _, kind := range []string{"kgroups", "compact"} {
+		c := eCase{Kind: kind, Policy: "error", Configs: map[int]string{2: "ext_range"}}
+		c.Docs = []eDoc{
+			{ID: 1, Cons: []eConj{{{F: 2, Inc: true, V: list(1000, 300, 1100, 1200)}}}},
+			{ID: 2, Cons: []eConj{{{F: 0, Inc: true, V: tvSlice("[]int", tvInt("int", 1))}, {F: 2, Inc: false, V: list(1000, 300, 1100, 1200)}}}},
+			{ID: 3, Cons: []eConj{{{F: 2, Inc: true, V: list(2000, 300, -1, -1)}}}},
+			{ID: 4, Cons: []eConj{{{F: 2, Inc: true, V: list(3000, 300, 3100, -1)}}}},
+			{ID: 5, Cons: []eConj{{{F: 2, Inc: true, V: list(4000, 256, -1, 4100)}}}},
+		}
+		for _, a := range []int64{1100, 1099, 1101, 1200, 1000, 1299, 1300, 999, 2000, 2150, 2299, 2300, 3100, 3099, 4100, 4255, 4256} {
+			c.Queries = append(c.Queries, eQuery{A: []eAssign{{F: 2, V: tvInt("int64", a)}, {F: 0, V: tvInt("int", 1)}}})
+		}
+		add(c)
+	}
+}
+
 // rangeFloatBoundCases: > and < whose operand is a float (integral and fractional, negative and positive), probed at
 // the bound and next to it
 func rangeFloatBoundCases(add func(in interface{})) {
@@ -259,6 +291,7 @@ func init() {
 			rangeSplitCases(add)
 			rangeFloatBoundCases(add)
 			rangeCachedCases(add)
+			rangeLongInLists(add)
 			for i := 0; i < n; i++ {
 				kind := "kgroups"
 				if i%2 == 1 {
